@@ -8,6 +8,7 @@ import GqlVerif.Proofs.AcyclicModulesClasses
 import GqlVerif.Proofs.ModuleOkInputsClasses
 import GqlVerif.Proofs.C01NestedK
 import GqlVerif.Proofs.C01NestedAbsE
+import GqlVerif.Proofs.C01AliasFragK
 open GqlVerif.C17
 #print axioms search_guarded_eq
 #print axioms search_guarded_total
@@ -120,3 +121,5 @@ open GqlVerif.C17
 #print axioms GqlVerif.C01N.nested_module_envOK
 -- NestedAbsOp (P46)
 #print axioms GqlVerif.C01NA.nestedabs_module_envOK
+-- AliasFragOp (P48)
+#print axioms GqlVerif.C01AF.aliasfrag_module_envOK
